@@ -1,19 +1,358 @@
 package main
 
+// Replay driver (binding A). A behaviour exported by Crash_All is one crash experiment:
+//   Hist{n,parent,order}  Deliver/Step ...  Crash  Recover{cont}  Deliver/Step ...
+// Reset runs the whole experiment on real nodes (history in a child that stops at the durable write
+// index the behaviour names, restart in a second child, continuation); Apply then walks the write
+// logs and observations in step with the model:
+//   Deliver / Step   ret.w   = the durable write the real node performed at this point (database, code
+//                              path) - the model's write order is the code's write order;
+//                    ret.fin = the delivery ended here, with ProcAddBlockMsg's answer and the tip
+//   Crash            ret     = "ok": the process stopped exactly there, nothing unaccounted in the log
+//   Recover          ret     = what the restarted node serves: the chain (model ids) and the
+//                              inconsistency classes found by evaluate() (the model: none)
+//   last step        chk     = the same after the continuation (the model: chain of the uninterrupted run)
+
 import (
-	"errors"
+	"fmt"
+	"sort"
+	"strings"
+	"sync"
 
 	"verif/harness/core"
 )
 
-type driver struct{}
+var labs struct {
+	mu sync.Mutex
+	m  map[string]*labEntry
+}
+
+type labEntry struct {
+	once sync.Once
+	l    *lab
+	err  error
+}
+
+// labFor returns the lab (world + base node) of a tree and concretisation, built once per process.
+func labFor(env *core.Env, ts treeSpec, conc int64) (*lab, error) {
+	if err := mk.init(env.Seed); err != nil {
+		return nil, err
+	}
+	key := fmt.Sprintf("%v|%d", ts.Parent, conc)
+	labs.mu.Lock()
+	if labs.m == nil {
+		labs.m = map[string]*labEntry{}
+	}
+	e, ok := labs.m[key]
+	if !ok {
+		e = &labEntry{}
+		labs.m[key] = e
+	}
+	labs.mu.Unlock()
+	e.once.Do(func() {
+		w, err := mk.build(ts, conc)
+		if err != nil {
+			e.err = err
+			return
+		}
+		e.l, e.err = newLab(w, fmt.Sprintf("n%d", ts.N))
+	})
+	return e.l, e.err
+}
+
+type driver struct {
+	env  *core.Env
+	b    *core.Behaviour
+	l    *lab
+	segs []*segResult
+	seg  int // current segment
+	pos  int // cursor in the filtered log of the current segment
+	evs  [][]logEv
+	last bool
+}
 
 func newDriver() core.Driver { return &driver{} }
 
-func (d *driver) Reset(env *core.Env, b *core.Behaviour) error { return errors.New("not built yet") }
-func (d *driver) Apply(s core.Step) (any, any, error)         { return nil, nil, errors.New("not built yet") }
-func (d *driver) Close()                                      {}
+// plan extracts the segments of a behaviour.
+func plan(b *core.Behaviour) (ts treeSpec, segs []segment, err error) {
+	if len(b.Steps) == 0 || b.Steps[0].Op() != "Hist" {
+		return ts, nil, fmt.Errorf("behaviour does not start with Hist")
+	}
+	ts = treeSpec{N: b.Steps[0].Int("n"), Parent: b.Steps[0].Ints("parent")}
+	cur := segment{CrashAt: -1}
+	w := 0
+	for _, s := range b.Steps[1:] {
+		switch s.Op() {
+		case "Deliver":
+			cur.Order = append(cur.Order, s.Int("b"))
+			fallthrough
+		case "Step":
+			if r, ok := s["ret"].(map[string]any); ok {
+				if ww, ok := r["w"].([]any); ok && len(ww) > 0 {
+					w++
+				}
+			}
+		case "Crash":
+			cur.CrashAt = w
+			segs = append(segs, cur)
+			cur = segment{CrashAt: -1}
+			w = 0
+		case "Recover":
+		}
+	}
+	segs = append(segs, cur)
+	return ts, segs, nil
+}
 
-func recordDefault(env *core.Env, emit func(map[string]any)) (*core.Summary, error) {
-	return nil, errors.New("not built yet")
+func filterLog(evs []logEv) []logEv {
+	var out []logEv
+	on := false
+	for _, e := range evs {
+		if e.Ev == "Phase" {
+			on = e.P == "continue"
+			continue
+		}
+		if !on {
+			continue
+		}
+		switch e.Ev {
+		case "Deliver", "Done", "Crash":
+			out = append(out, e)
+		case "Write":
+			if e.W != nil && e.W.I > 0 {
+				out = append(out, e)
+			}
+		}
+	}
+	return out
+}
+
+func (d *driver) Reset(env *core.Env, b *core.Behaviour) error {
+	d.env, d.b = env, b
+	ts, segs, err := plan(b)
+	if err != nil {
+		return err
+	}
+	l, err := labFor(env, ts, int64(env.OptInt("conc", 1)))
+	if err != nil {
+		return err
+	}
+	d.l = l
+	rs, err := l.run(segs)
+	if err != nil {
+		return err
+	}
+	d.segs, d.seg, d.pos = rs, 0, 0
+	d.evs = nil
+	for _, r := range rs {
+		d.evs = append(d.evs, filterLog(r.Log))
+	}
+	return nil
+}
+
+func (d *driver) Close() {}
+
+func (d *driver) next() *logEv {
+	if d.seg >= len(d.evs) || d.pos >= len(d.evs[d.seg]) {
+		return nil
+	}
+	return &d.evs[d.seg][d.pos]
+}
+
+func tipModel(id int) int {
+	if id == -trunkH {
+		return 0
+	}
+	return id
+}
+
+func evName(e *logEv) string {
+	if e == nil {
+		return "end-of-log"
+	}
+	if e.Ev == "Write" && e.W != nil {
+		return "Write:" + e.W.DB + "/" + e.W.Origin
+	}
+	return e.Ev
+}
+
+func (d *driver) Apply(s core.Step) (any, any, error) {
+	switch s.Op() {
+	case "Hist":
+		return nil, nil, nil
+	case "Deliver", "Step":
+		exp, _ := s["ret"].(map[string]any)
+		expW, _ := exp["w"].([]any)
+		expFin, _ := exp["fin"].(bool)
+		ret := map[string]any{"w": []any{}, "fin": false}
+		if d.seg >= len(d.segs) {
+			// the node did not come up again (Recover reported it): nothing to observe
+			return map[string]any{"w": []any{"-", "node-down"}, "fin": false}, nil, nil
+		}
+		if s.Op() == "Deliver" {
+			e := d.next()
+			if e == nil || e.Ev != "Deliver" || e.B != s.Int("b") {
+				ret["w"] = []any{"-", "expected-Deliver-got-" + evName(e)}
+				return ret, nil, nil
+			}
+			d.pos++
+		}
+		if len(expW) > 0 {
+			e := d.next()
+			if e == nil || e.Ev != "Write" {
+				ret["w"] = []any{"-", "no-write-got-" + evName(e)}
+				return ret, nil, nil
+			}
+			ret["w"] = []any{e.W.DB, e.W.Origin}
+			d.pos++
+		}
+		if expFin {
+			e := d.next()
+			switch {
+			case e != nil && e.Ev == "Done":
+				ret["fin"], ret["err"], ret["tip"] = true, e.Err, tipModel(e.Tip)
+				d.pos++
+			case e != nil && e.Ev == "Write" && len(expW) == 0:
+				ret["w"] = []any{e.W.DB, e.W.Origin} // a write the model does not have
+			}
+		}
+		var chk any
+		if _, ok := s["chk"]; ok {
+			chk = d.final()
+		}
+		return ret, chk, nil
+	case "Crash":
+		if d.seg >= len(d.segs) {
+			return "node-down", nil, nil
+		}
+		r := d.segs[d.seg]
+		left := d.evs[d.seg][d.pos:]
+		res := "ok"
+		if r.Died != "" {
+			res = "node-died"
+		} else if r.Crashed {
+			// up to the write it stopped at, the process may have ended the delivery and taken up the next ones
+			// (volatile steps only): Done / Deliver records, then the crash record
+			for i, e := range left {
+				if (i < len(left)-1 && e.Ev != "Done" && e.Ev != "Deliver") || (i == len(left)-1 && e.Ev != "Crash") {
+					res = "unaccounted:" + evName(&left[i])
+					break
+				}
+			}
+			if len(left) == 0 {
+				res = "unaccounted:end-of-log"
+			}
+		} else {
+			// the history performs no further write: the child ran to its end (clean stop instead of a crash);
+			// only the end of the running delivery may be left in the log
+			for i, e := range left {
+				if e.Ev != "Done" && e.Ev != "Deliver" {
+					res = "unaccounted:" + evName(&left[i])
+					break
+				}
+			}
+		}
+		d.seg++
+		d.pos = 0
+		return res, nil, nil
+	case "Recover":
+		if d.seg >= len(d.segs) {
+			return map[string]any{"ok": false, "chain": []int{}, "problems": []string{"node-died"}}, nil, nil
+		}
+		r := d.segs[d.seg]
+		if r.Out == nil || r.Out.OpenErr != "" || r.Out.Obs1 == nil {
+			cls := "restart-failed"
+			if r.Out != nil && strings.HasPrefix(r.Out.OpenErr, "panic") {
+				cls = "restart-panic"
+			}
+			return map[string]any{"ok": false, "chain": []int{}, "problems": []string{cls}}, nil, nil
+		}
+		v := evaluate(d.l.w, r.Out.Obs1)
+		return map[string]any{"ok": true, "chain": v.Chain, "problems": v.Problems}, nil, nil
+	}
+	return nil, nil, fmt.Errorf("unknown op %q", s.Op())
+}
+
+// final: what the node serves after the continuation, and the writes of the last life the model did not name
+func (d *driver) final() any {
+	if d.seg >= len(d.segs) {
+		return map[string]any{"chain": []int{}, "problems": []string{"node-down"}, "extra": []string{}}
+	}
+	r := d.segs[d.seg]
+	extra := []string{}
+	for _, e := range d.evs[d.seg][d.pos:] {
+		extra = append(extra, evName(&e))
+	}
+	if r.Died != "" || r.Out == nil || r.Out.Obs2 == nil {
+		return map[string]any{"chain": []int{}, "problems": []string{"node-died"}, "extra": extra}
+	}
+	v := evaluate(d.l.w, r.Out.Obs2)
+	return map[string]any{"chain": v.Chain, "problems": v.Problems, "extra": extra}
+}
+
+// crashDesc names the write the process was about to start at the (first) crash.
+func (d *driver) crashDesc() string {
+	for _, r := range d.segs {
+		if r.Crashed && r.Next != nil {
+			return r.Next.DB + "/" + r.Next.Origin
+		}
+	}
+	return "none"
+}
+
+// NonTrivial: the crash index lies strictly inside a connect / disconnect sequence (the delivery in
+// progress had already performed a durable write and had more to perform).
+func (d *driver) NonTrivial(env *core.Env, b *core.Behaviour) bool {
+	for i, s := range b.Steps {
+		if s.Op() != "Crash" || i == 0 {
+			continue
+		}
+		if r, ok := b.Steps[i-1]["ret"].(map[string]any); ok {
+			if fin, _ := r["fin"].(bool); !fin {
+				return true
+			}
+		}
+	}
+	return false
+}
+
+func histKind(b *core.Behaviour) string {
+	if len(b.Steps) == 0 {
+		return "?"
+	}
+	return fmt.Sprintf("tree%v/order%v", b.Steps[0].Ints("parent"), b.Steps[0].Ints("order"))
+}
+
+func classes(v any) string {
+	m, ok := v.(map[string]any)
+	if !ok {
+		return core.J(v)
+	}
+	var ps []string
+	if l, ok := m["problems"].([]any); ok {
+		for _, x := range l {
+			ps = append(ps, fmt.Sprint(x))
+		}
+	}
+	sort.Strings(ps)
+	if len(ps) == 0 {
+		return "chain" + core.J(m["chain"])
+	}
+	return strings.Join(ps, "+")
+}
+
+// Signature: history kind, write that was about to start at the crash, step kind, observed class.
+func (d *driver) Signature(b *core.Behaviour, idx int, field string, expected, observed any) string {
+	op := b.Steps[idx].Op()
+	obs := ""
+	switch {
+	case op == "Recover" || field == "chk":
+		obs = classes(observed)
+	case op == "Crash":
+		obs = fmt.Sprint(observed)
+	default:
+		m, _ := observed.(map[string]any)
+		obs = fmt.Sprintf("w=%s,fin=%v,err=%v", core.J(m["w"]), m["fin"], m["err"])
+	}
+	return fmt.Sprintf("crash|%s|at=%s|%s.%s|%s", histKind(b), d.crashDesc(), op, field, obs)
 }
